@@ -377,6 +377,12 @@ impl EncryptedMessage {
     // [A-enc-has-digest]
     #[verifier::external_body]
     pub fn has_digest(&self) -> (r: bool) ensures r == self.aad_digest().is_some() { unimplemented!() }
+    // further accessors of bc_components::EncryptedMessage: present so that code using them compiles; their results are
+    // unconstrained (nothing is assumed about them)
+    #[verifier::external_body]
+    pub fn aad(&self) -> (r: &Vec<u8>) { unimplemented!() }
+    #[verifier::external_body]
+    pub fn ciphertext(&self) -> (r: &Vec<u8>) { unimplemented!() }
     // [A-enc-opt-digest]
     #[verifier::external_body]
     pub fn opt_digest(&self) -> (r: Option<Digest>) ensures r == self.aad_digest() { unimplemented!() }
